@@ -49,6 +49,13 @@ pub struct ObjInfo {
     pub k: Vec<u32>,
     pub transfer_len: u64,
     pub md5: bool,
+    /// OTI as announced by the in-band EXT_FTI of the object's packets (None: FDT-only signalling)
+    pub wire_fti: Option<WireOti>,
+    /// OTI as announced by the first FDT instance that lists the object
+    pub wire_fdt: Option<WireOti>,
+    /// configured (E, B) of the object (own OTI, else the session's)
+    pub cfg_e: u16,
+    pub cfg_b: u32,
 }
 
 #[derive(Debug, Clone)]
@@ -153,6 +160,29 @@ pub fn build_session(spec: &SessSpec) -> Result<LabeledSession, String> {
     for (oi, (toi, bytes, tl, o)) in added.iter().enumerate() {
         let wire = an.wire_oti(*toi, &drv.log)?.ok_or("object without wire OTI")?;
         let part = wire.partition().ok_or("object partition")?;
+        let mut wire_fti = None;
+        if let Some(ts) = an.transfers.get(toi) {
+            'find: for t in ts {
+                for i in &t.pkts {
+                    if let Some((_, d)) = drv.log[*i].pkt() {
+                        if let Some(f) = &d.fti {
+                            wire_fti = Some(stream::wire_oti_from_fti(f));
+                            break 'find;
+                        }
+                    }
+                }
+            }
+        }
+        let mut wire_fdt = None;
+        for inst in &an.fdts {
+            if let (Some(doc), Some(file)) = (inst.doc.as_ref(), inst.lists(*toi)) {
+                wire_fdt = stream::wire_oti_from_fdt(doc, file)?;
+                if wire_fdt.is_some() {
+                    break;
+                }
+            }
+        }
+        let cfg = o.oti.as_ref().unwrap_or(&spec.sender.oti);
         objs.push(ObjInfo {
             toi: *toi,
             bytes: bytes.clone(),
@@ -160,6 +190,10 @@ pub fn build_session(spec: &SessSpec) -> Result<LabeledSession, String> {
             k: (0..part.n).map(|s| part.k(s) as u32).collect(),
             transfer_len: *tl,
             md5: o.md5,
+            wire_fti,
+            wire_fdt,
+            cfg_e: cfg.e,
+            cfg_b: cfg.b,
         });
         if let Some(ts) = an.transfers.get(toi) {
             for (ti, t) in ts.iter().enumerate() {
